@@ -2369,12 +2369,15 @@ fn tm_crl_tbs(env: &Env, key: usize, serials: &[[u8; 20]]) -> Vec<u8> {
 /// Serial number k of a family: `Window(off, fill)` = 20 octets, all `fill` except octet 0 (= 01)
 /// and a four-octet counter at `off`; `Ordinary` = the first 20 octets of SHA-256(k), made positive.
 #[derive(Clone, Copy, Debug, PartialEq, Eq)]
-enum SerialFam { Ordinary, Window(usize, u8), Key(KeyFam, u8) }
+enum SerialFam { Ordinary, Window(usize, u8), Key(KeyFam, u8),
+    /// round 13: the serials of Window(off, 00) listed in another order than ascending (the position decides, see the Crl / Sig cases)
+    Ordered(usize, Order) }
 fn tm_serial(f: SerialFam, k: u32) -> [u8; 20] {
     let mut s = [0u8; 20];
     match f {
         SerialFam::Ordinary => { s.copy_from_slice(&signer::sha256(&k.to_be_bytes())[..20]); s[0] = (s[0] & 0x3f) | 0x40; }
         SerialFam::Window(off, fill) => { s = [fill; 20]; s[0] = 1; s[off..off + 4].copy_from_slice(&k.to_be_bytes()); }
+        SerialFam::Ordered(off, _) => { s = [0u8; 20]; s[0] = 1; s[off..off + 4].copy_from_slice(&k.to_be_bytes()); }
         SerialFam::Key(kf, fill) => { let mut base = [fill; 20]; base[0] = 1; s.copy_from_slice(&kf.make(&base, 1, k)); }
     }
     s
@@ -2547,6 +2550,8 @@ impl TmCase {
             TmCase::Crl(SerialFam::Window(off, fill)) => format!("crl/serials-equal-but-octets-{}..{}/fill-{:02x}", off, off + 4, fill),
             TmCase::Crl(SerialFam::Key(kf, fill)) => format!("crl/serials-{}/fill-{:02x}", kf.name(), fill),
             TmCase::Crl(SerialFam::Ordinary) => "crl/ordinary".into(),
+            TmCase::Crl(SerialFam::Ordered(off, o)) => format!("crl/serials-counting-in-octets-{}..{}/listed-{}", off, off + 4, o.name()),
+            TmCase::Sig(SerialFam::Ordered(off, o)) => format!("sigmsg/crl-serials-counting-in-octets-{}..{}/listed-{}", off, off + 4, o.name()),
             TmCase::Mft(MftShape::NameKey(kf)) => format!("mft/names-{}", kf.name()),
             TmCase::Mft(MftShape::HashKey(kf)) => format!("mft/hashes-{}", kf.name()),
             TmCase::Mft(s) => format!("mft/{s:?}"),
@@ -2574,12 +2579,13 @@ impl TmCase {
             TmCase::SetOps(f, _) => TmCase::SetOps(f, Rel::Halves),
             TmCase::Cert(_) => TmCase::Cert(Order::Asc), TmCase::Rta(_) => TmCase::Rta(Order::Asc),
             TmCase::CertKeys(f, _) => TmCase::CertKeys(f, None),
+            TmCase::Crl(SerialFam::Ordered(off, _)) => TmCase::Crl(SerialFam::Ordered(off, Order::Asc)),
             TmCase::Crl(_) => TmCase::Crl(SerialFam::Ordinary),
             TmCase::Aspa(AspaShape::Key(_)) => TmCase::Aspa(AspaShape::Key(None)),
             TmCase::Roa(f, RoaShape::Key(_)) => TmCase::Roa(f, RoaShape::Key(None)),
             TmCase::Mft(_) => TmCase::Mft(MftShape::Ordinary), TmCase::Aspa(_) => TmCase::Aspa(AspaShape::Ordinary),
             TmCase::Roa(f, _) => TmCase::Roa(f, RoaShape::Ordinary),
-            TmCase::Tal(_) => TmCase::Tal(TalShape::Ordinary), TmCase::Sig(_) => TmCase::Sig(SerialFam::Ordinary),
+            TmCase::Tal(_) => TmCase::Tal(TalShape::Ordinary), TmCase::Sig(SerialFam::Ordered(off, _)) => TmCase::Sig(SerialFam::Ordered(off, Order::Asc)), TmCase::Sig(_) => TmCase::Sig(SerialFam::Ordinary),
         }
     }
     /// For the key families: (family, key length, fixed octets, counters used per element).
@@ -2602,6 +2608,8 @@ impl TmCase {
     }
     fn ladder(self, thorough: bool) -> Vec<usize> {
         match self {
+            // the order families go one rung further in the quick tier too: a quadratic insertion sort stays under the one-second margin at 65 536 serials
+            TmCase::Crl(SerialFam::Ordered(..)) => vec![1024, 4096, 16384, 65536, 262144],
             TmCase::Crl(_) => if thorough { vec![1024, 4096, 16384, 65536, 262144] } else { vec![1024, 4096, 16384, 65536] },
             TmCase::Aspa(_) => vec![1023, 4095, 16380],
             TmCase::Roa(_, RoaShape::UnderManyBlocks) => vec![1024, 4096, 16384, 32768],
@@ -2620,6 +2628,9 @@ fn tm_cases(thorough: bool) -> Vec<TmCase> {
     for o in ORDERS_CRAFTED { v.push(TmCase::SetText(o)); v.push(TmCase::Cert(o)); v.push(TmCase::Rta(o)) }
     for fam in [Fam::V4, Fam::V6, Fam::As] { for r in [Rel::Interleaved, Rel::Identical, Rel::Nested, Rel::OneCovering] { v.push(TmCase::SetOps(fam, r)) } }
     for off in [1usize, 4, 8, 12, 16] { for fill in [0x00u8, 0xa5] { v.push(TmCase::Crl(SerialFam::Window(off, fill))) } }
+    // the ORDER of a keyed list (round 13): a sorted vector filled by insertion is linear for ascending input only
+    for o in [Order::Desc, Order::Zigzag, Order::TwoRuns, Order::Stride] { v.push(TmCase::Crl(SerialFam::Ordered(16, o))) }
+    v.push(TmCase::Sig(SerialFam::Ordered(16, Order::Desc)));
     for s in [MftShape::CommonPrefix, MftShape::CommonSuffix, MftShape::SameNames, MftShape::SameHashes] { v.push(TmCase::Mft(s)) }
     for s in [AspaShape::Shift16, AspaShape::Shift8, AspaShape::Consecutive, AspaShape::Descending, AspaShape::LowWindow] { v.push(TmCase::Aspa(s)) }
     for f in [Fam::V4, Fam::V6] { for s in [RoaShape::Desc, RoaShape::Zigzag, RoaShape::Same, RoaShape::SameAddrAllLengths, RoaShape::UnderManyBlocks] { v.push(TmCase::Roa(f, s)) } }
@@ -2799,7 +2810,7 @@ fn tm_run(env: &Env, case: TmCase, n: usize) -> (TmOps, bool) {
             }
         }
         TmCase::Crl(f) => {
-            let serials: Vec<[u8; 20]> = (0..n as u32).map(|k| tm_serial(f, k)).collect();
+            let serials: Vec<[u8; 20]> = match f { SerialFam::Ordered(_, o) => o.perm(n).into_iter().map(|k| tm_serial(f, k as u32)).collect(), _ => (0..n as u32).map(|k| tm_serial(f, k)).collect() };
             let d = tm_crl(env, &serials);
             let crl = timed_decode!("Crl::decode", Crl::decode(d.as_slice()).map_err(|e| e.to_string()));
             let ser = |x: &[u8; 20]| Serial::from_array(*x).expect("positive 20-octet serial");
@@ -2916,7 +2927,7 @@ fn tm_run(env: &Env, case: TmCase, n: usize) -> (TmOps, bool) {
             tm_measure(&mut ops, "Tal::uris", || { std::hint::black_box(t.uris().map(|u| u.as_str().len()).sum::<usize>()); });
         }
         TmCase::Sig(f) => {
-            let serials: Vec<[u8; 20]> = (0..n as u32).map(|k| tm_serial(f, k)).collect();
+            let serials: Vec<[u8; 20]> = match f { SerialFam::Ordered(_, o) => o.perm(n).into_iter().map(|k| tm_serial(f, k as u32)).collect(), _ => (0..n as u32).map(|k| tm_serial(f, k)).collect() };
             let crl = pki::sign_tbs(&env.signer, 0, &tm_crl_tbs(env, 0, &serials));
             let d = e5_signed_object(&env.signer, der::OID_CT_PROTOCOL, &env.fx.prov_xml, &env.fx.id_ee_der, 7, vec![crl], true);
             let m = timed_decode!("SignedMessage::decode", SignedMessage::decode(d.as_slice(), true).map_err(|e| e.to_string()));
